@@ -417,6 +417,7 @@ type FuncContract struct {
 	Requires []*Clause
 	Ensures  []*Clause
 	Modifies []*Clause
+	Reads    []*Clause
 	HasMod   bool
 	Loops    map[int]*LoopContract
 	Asserts  []*AssertClause
@@ -484,7 +485,7 @@ func NewContractSet() *ContractSet {
 var (
 	tagRe     = regexp.MustCompile(`^(\w[\w-]*)(\[[A-Za-z0-9_, ]+\])?\s*(.*)$`)
 	assertRe  = regexp.MustCompile(`^in\s+(\S+)\s+at\s+"(.*?)"\s*:\s*(.*)$`)
-	keywords  = map[string]bool{"effect": true, "assert": true, "ghost": true, "functype": true, "func": true, "loop": true, "pure": true, "lemma": true, "requires": true, "ensures": true, "modifies": true, "invariant": true, "decreases": true, "let": true, "iface": true, "assume-contract": true, "axiom": true}
+	keywords  = map[string]bool{"effect": true, "assert": true, "ghost": true, "functype": true, "func": true, "loop": true, "pure": true, "lemma": true, "requires": true, "ensures": true, "modifies": true, "reads": true, "invariant": true, "decreases": true, "let": true, "iface": true, "assume-contract": true, "axiom": true}
 	pureRe    = regexp.MustCompile(`^(\w+)\s*\((.*?)\)\s*([^=]*?)\s*(?:=\s*(.*))?$`)
 	loopRe    = regexp.MustCompile(`^(\d+)\s+in\s+(\S+)(?:\s+at\s+"(.*)")?\s*$`)
 	lemmaRe   = regexp.MustCompile(`^(\w+)\s*(?:\(([^)]*)\))?\s*((?:[\w-]+=\S+\s*)*):\s*(.*)$`)
@@ -548,7 +549,7 @@ func (cs *ContractSet) LoadFile(path, pkgPath string, trusted bool) error {
 			c.Name = strings.TrimSpace(txt[:i])
 			txt = txt[i+1:]
 		}
-		if r.kw != "modifies" {
+		if r.kw != "modifies" && r.kw != "reads" {
 			e, err := ParseSpecExpr(txt)
 			if err != nil {
 				return nil, fmt.Errorf("%s:%d: %v", path, r.line, err)
@@ -727,6 +728,8 @@ func (cs *ContractSet) LoadFile(path, pkgPath string, trusted bool) error {
 			case "modifies":
 				curF.Modifies = append(curF.Modifies, c)
 				curF.HasMod = true
+			case "reads":
+				curF.Reads = append(curF.Reads, c)
 			case "let":
 				curF.Lets = append(curF.Lets, c)
 			default:
